@@ -275,4 +275,51 @@ Section OnRadio.
     erewrite bind_okW by reflexivity.
     rewrite A32. destruct (exchange_ok wpre me); [rewrite andb_false_r|]; reflexivity.
   Qed.
+
+  (* write(buf, ask_no_ack, write_only=True) with CE low (the streaming idiom: fill the TX FIFO, then raise CE):
+     the call returns True exactly when the TX FIFO had room -- decided from the STATUS byte the radio shifts out
+     with the flag-clearing transfer, i.e. the FIFO state of THIS moment, not a cached one -- and then exactly this
+     payload has been appended to the FIFO; it returns False with the FIFO untouched otherwise.  Nothing is
+     transmitted and no other radio changes. *)
+  Theorem write_only_truth d w buf b noack :
+    Q w -> AllWf w -> ce (get_radio w me) = false ->
+    norm_payload d buf = Ok b ->
+    let s := get_radio w me in
+    exists d' w',
+      write W buf noack true d w = (Ok (negb (tx_full s)), d', w')
+      /\ get_radio w' me = (if tx_full s then with_flags s 0 else loaded (with_flags s 0) noack b)
+      /\ (forall j, j <> me -> get_radio w' j = get_radio w j)
+      /\ air w' = air w.
+  Proof.
+    intros Hq Hwf Hce Hnorm s. pose proof Hq as [P L].
+    set (s2 := with_flags s 0).
+    set (w2 := tick (set_radio w me s2) SPI_COST).
+    assert (Q2 : Q w2) by (apply Q_tick, Q_set; exact Hq).
+    assert (G2 : get_radio w2 me = s2) by (unfold w2; rewrite get_radio_tick; apply get_set_radio_same; exact L).
+    assert (Hwf_s : WfR s) by (unfold s, get_radio; apply Forall_nth; [exact Hwf|exact L]).
+    destruct (status_decode s Hwf_s) as (_&_&_&_&_&_&Hbit).
+    unfold write. unfold bind at 1. unfold get at 1. rewrite Hnorm.
+    erewrite bind_okW; [|apply step_clear_flags; [exact Hq|exact Hce]]. fold s. fold s2. fold w2.
+    unfold bind at 1. unfold get at 1.
+    assert (Hst : st_bit (upd_in0 (status s) d) 1 = tx_full s).
+    { unfold st_bit. cbn [d_in0 upd_in0]. exact Hbit. }
+    rewrite Hst.
+    destruct (tx_full s) eqn:Ef.
+    - (* full: refused, nothing written *)
+      exists (upd_in0 (status s) d), w2. split; [reflexivity|]. split; [exact G2|]. split.
+      + intros j Hj. unfold w2. rewrite get_radio_tick. apply get_set_radio_other. intro X; apply Hj; symmetry; exact X.
+      + reflexivity.
+    - assert (Hce2 : ce (get_radio w2 me) = false) by (rewrite G2; exact Hce).
+      assert (Hf2 : tx_full (get_radio w2 me) = false) by (rewrite G2; exact Ef).
+      erewrite bind_okW; [|apply step_load; [exact Q2|exact Hce2|exact Hf2]].
+      rewrite G2. cbn [negb].
+      eexists _, _. split; [reflexivity|]. split.
+      + rewrite get_radio_tick. apply get_set_radio_same. exact (proj2 Q2).
+      + split.
+        * intros j Hj. assert (Hj' : me <> j) by (intro X; apply Hj; symmetry; exact X).
+          rewrite get_radio_tick, get_set_radio_other by exact Hj'.
+          unfold w2. rewrite get_radio_tick. apply get_set_radio_other. exact Hj'.
+        * reflexivity.
+  Qed.
+
 End OnRadio.
